@@ -118,7 +118,14 @@ def r_ledger(root):
                 f2 = enclosing_func(c)
                 if f2 is not None and f2.name == "_remove_all_affected_models_in_construction":
                     # cleanup of an abandoned load: only the models still under construction (marker filter) may be evicted
-                    ax = ast.unparse(_sem.info(f2).expand(c.args[1], at=c)) if len(c.args) > 1 else ""
+                    axe = _sem.info(f2).expand(c.args[1], at=c) if len(c.args) > 1 else None
+                    ax = ast.unparse(axe) if axe is not None else ""
+                    # the filter may live in a helper: f(models) whose returns all carry the marker test
+                    for hc in ([x for x in ast.walk(axe) if isinstance(x, ast.Call) and isinstance(x.func, ast.Name)] if axe is not None else []):
+                        hd = [d for d in ast.walk(t) if isinstance(d, ast.FunctionDef) and d.name == hc.func.id]
+                        if len(hd) == 1:
+                            rets = [r for r in ast.walk(hd[0]) if isinstance(r, ast.Return) and r.value is not None]
+                            if rets and all("_tx_reference_resolver" in ast.unparse(_sem.info(hd[0]).expand(r.value, at=r)) for r in rets): ax += " /* %s filters by _tx_reference_resolver */" % hc.func.id
                     if "_tx_reference_resolver" not in ax:
                         out.append(Finding("C18", "C18.b", M, qualname(c), ast.unparse(c), "models cached by earlier loads are removed too (the removed set is not filtered by the construction marker): a failed load evicts finished models from the global repository and the next load re-parses them", witness="global_repository=True: load base; a load that imports base fails; load base again"))
                     continue
